@@ -12,7 +12,8 @@
    together on a run with faults, complaints and justifications. *)
 From Coq Require Import ZArith List Bool Lia.
 From Kyber Require Import Algebra.Zq Algebra.Grp DKG.PedersenDKG DKG.PedersenProofs
-  DKG.Agreement DKG.AgreementDeal DKG.AgreementResp DKG.AgreementJust DKG.AgreementProofs DKG.AgreementResult.
+  DKG.Agreement DKG.AgreementDeal DKG.AgreementResp DKG.AgreementJust DKG.AgreementProofs DKG.AgreementResult
+  DKG.AgreementQual.
 Import ListNotations.
 Local Open Scope Z_scope.
 
@@ -156,4 +157,27 @@ Proof.
   - discriminate.
   - right. apply fast_output. cbn. auto.
   - right. apply fast_output. cbn. auto.
+Qed.
+
+(* ------------------------------------------------------------------ *)
+(* Third example: everybody honest (regular mode): the hypotheses of
+   all_honest_complete are satisfiable, and its conclusion on this instance *)
+Definition aD : list (deal_bundle eq_) := [dbun eq_ (ecfg 0); dbun eq_ (ecfg 1); dbun eq_ (ecfg 2); dbun eq_ (ecfg 3)].
+Definition aB : boards eq_ := mkboards aD [] [].
+
+Lemma all_honest_instance i : In i (map fst enodes) -> honest eq_ enodes ethr false aB i (ecfg i).
+Proof.
+  intros I. constructor.
+  - apply ecfg_fresh. exact I.
+  - cbn in I. destruct I as [<-|[<-|[<-|[<-|[]]]]]; vm_compute; auto.
+  - cbn in I. destruct I as [<-|[<-|[<-|[<-|[]]]]]; vm_compute; intuition discriminate.
+  - cbn in I. destruct I as [<-|[<-|[<-|[<-|[]]]]]; vm_compute; intuition discriminate.
+Qed.
+
+Example example_all_honest :
+  forall i, In i (map fst enodes) -> exists r, out_resp eq_ (ecfg i) aB r /\ res_qual r = [0; 1; 2; 3].
+Proof.
+  apply (all_honest_complete eq_ enodes ethr false aB ecfg).
+  - unfold boards_ok. vm_compute. repeat split; repeat constructor; cbn; intuition discriminate.
+  - exact all_honest_instance.
 Qed.
